@@ -26,7 +26,7 @@ C14_IOERR
 __CPROVER_ensures(verif_exc == 0 ==> ret->size == g_src_len)
 __CPROVER_ensures(verif_exc == 0 ==> g_eof_seen)
 __CPROVER_ensures((verif_exc == 0 && g_vk < ret->size) ==> (uint8_t)ret->data[g_vk] == g_sval)
-__CPROVER_assigns(C14_SRC_ASSIGNS, __CPROVER_object_whole(g_vsv_buf), g_cval, g_it_next, g_it_prefix, ret->size, __CPROVER_object_whole(ret->data));
+__CPROVER_assigns(C14_SRC_ASSIGNS, g_stream_fd_taken, g_stream_fd, __CPROVER_object_whole(g_vsv_buf), g_cval, g_it_next, g_it_prefix, ret->size, __CPROVER_object_whole(ret->data));
 
 /* one line: the source's remaining bytes are one line of g_src_len bytes (terminated by '\n' iff g_has_nl, see the
  * fgets stub); the result is that line, whatever its length relative to the internal block size */
